@@ -376,7 +376,7 @@ theorem turn_dpost (cfg : Cfg) (f : Nat) (s : S α) (a : Int) (h : Rdy False a s
         { s with turn := (Turn.step s.turn .start).1, active := id }
         (.turnStart id av total (orderOf st))) .phase1Start)) false)) :=
       ⟨id, phase2_dpost cfg f _ True id h2⟩
-    split <;> split <;> first | exact hA | skip
+    split <;> first | exact hA | skip
     all_goals
       have p3 := executeQueue_dpost cfg f _ true True id h2
       split
